@@ -676,6 +676,62 @@ def rule_r4(chk, p, t):
     r.guard("attach-metadata", meta)
 
 
+def rule_r5(chk, p, t):
+    r = chk.rule(
+        "C19.R5",
+        "a failed read of the database is never reported as an empty result",
+        1,
+        "both importer paths (ephemerides, observations) read through DataInterface.getData; `nothing stored for this "
+        "epoch` and `the read failed` must stay distinguishable: in getData (and every override) no path leads from an "
+        "exception handler to a normal return without either re-raising or passing a read statement that completed "
+        "afterwards - a retry loop that falls through after its last failed attempt returns the initial empty value, the "
+        "engine saves no imported observations for the epoch and the filters silently take the propagate-only branch",
+        "which exceptions the driver raises",
+    )
+    from rsa.cfg import cfg_of
+
+    di = p.cls("resonaate.data.data_interface.DataInterface")
+    n = 0
+    for ci in [di] + list(p.subclasses(di)):
+        m = ci.methods.get("getData")
+        if m is None:
+            continue
+        n += 1
+
+        def one(m=m, ci=ci):
+            cfg = cfg_of(m)
+            READS = {"all", "first", "one", "one_or_none", "scalar", "scalars", "execute", "fetchall", "fetchone"}
+            reads = [nd.id for nd in cfg.nodes if nd.ast is not None and nd.kind in ("stmt", "return", "cond") and any(isinstance(c, ast.Call) and isinstance(c.func, ast.Attribute) and c.func.attr in READS for c in ast.walk(nd.ast))]
+            require(reads, f"{ci.name}.getData performs no read", m.node)
+            rets = [nd for nd in cfg.nodes if nd.kind == "return"]
+            require(rets, f"{ci.name}.getData has no return", m.node)
+            handlers = [h for tr in ast.walk(m.node) if isinstance(tr, ast.Try) for h in tr.handlers]
+            bad = []
+            for h in handlers:
+                first = next((nd for nd in cfg.nodes if nd.ast is not None and h.body and (nd.ast is h.body[0] or any(x is nd.ast for x in ast.walk(h.body[0])))), None)
+                if first is None:
+                    continue
+                reach = cfg.reachable(first.id, blocked_nodes=reads)
+                leak = [rt for rt in rets if rt.id in reach]
+                if leak:
+                    bad.append((h, leak[0]))
+            if bad:
+                h, rt = bad[0]
+                r.violation(
+                    m.qualname,
+                    f"failed-read-returns:{unparse(h.type) if h.type is not None else 'bare'}",
+                    f"{ci.name}.getData: after `except {unparse(h.type) if h.type is not None else ''}` (line {h.lineno}) a path reaches `return` (line {rt.lineno}) without re-raising and without a completed read: "
+                    "a read that failed is reported as `no rows` - imported observations and ephemerides of that epoch silently disappear",
+                    m.loc(h),
+                )
+            else:
+                r.ok(m.qualname, f"{len(handlers)} handler(s): each re-raises or leads to a completed read before any return", m.loc())
+
+        r.guard(m.qualname, one)
+    if n == 0:
+        r.error("getData", "DataInterface.getData not found")
+
+
 def run(chk, p, t):
     chk.explanation = (
         "Static decision of structural necessary conditions of C19: (R1) every public mutating method of the data "
@@ -690,7 +746,7 @@ def run(chk, p, t):
         "the importer file already has the full schema, so create_all(checkfirst=True) at construction is a no-op",
         "ray.get returns an object of the class that was ray.put (typing by provenance of the handle)",
     ]
-    for fn in (rule_r1, rule_r2, rule_r3, rule_r4):
+    for fn in (rule_r1, rule_r2, rule_r3, rule_r4, rule_r5):
         rid = "C19.R" + fn.__name__[-1]
         if not chk.wants(rid):
             continue
